@@ -1394,7 +1394,7 @@ func (eng *Engine) VerifyGexp(key string) (obs []ringObl, err error) {
 		want = gi.sym("V")
 	}
 	if nafName != "" {
-		// [g]G + [s]P with s = sum_i d_i 2^i (lemma: the recoding's digits represent the scalar; stand-in in C20)
+		// [g]G + [s]P with s = sum_i d_i 2^i (lemma: the digits represent the scalar - postcondition of utils.DecomposeNAF, proved in C20)
 		for i := 0; i < gi.nafDigits; i++ {
 			want = polyAdd(want, polyScale(polyMul(gi.sym(fmt.Sprintf("d%d", i)), gi.sym("PB")), new(big.Int).Lsh(big.NewInt(1), uint(i))))
 		}
